@@ -24,6 +24,10 @@ Oracle  : fit   : sparse.toarray() == dense == reference (sum over the edges - v
                   the reference quadratic form of the VALUES (float64), equals what the same model returns for the
                   same values as a plain float64 array, sparse == dense.  The training data is presented in the
                   same families of forms (FORM_FEEDS) and every fit / query oracle is applied to those models too.
+          refuse: REFUSED-CALL letters (increment on a non-incremental model, wrong-size queries, invalid mode and
+                  singular data on the model's own graph), made twice on the same live models in between the valid
+                  queries: they raise (the explicit ValueError / LinAlgError where the code names one), models, graphs and
+                  arguments are observably unchanged, the retry is refused alike, later queries run their normal oracle.
           queries never change the observation of either model (queries_must_not_mutate).
 """
 import itertools
